@@ -195,6 +195,20 @@ func GenerateGRPC(r *lp.Rng, index int) *Design {
 			}
 			s.Methods = append(s.Methods, m)
 		}
+		if si == 0 && index%6 == 3 {
+			// a client-streaming method whose streamed payload carries constraints and whose result is a result
+			// type with views (the streamed messages are validated by Recv on the server, whatever the result is)
+			d.Types = append(d.Types, &TypeDef{Name: "Report", Kind: "result", Identifier: "application/vnd.report",
+				Att: &Att{Type: &Type{IsObject: true, Object: []*Field{
+					{Name: "total", Att: tag(&Att{Type: &Type{Prim: "Int"}}, 1)},
+					{Name: "note", Att: tag(&Att{Type: &Type{Prim: "String"}}, 2)}}}, Required: []string{"total"}},
+				Views: []*View{{Name: "default", Attrs: []ViewField{{Name: "total"}, {Name: "note"}}}, {Name: "tiny", Attrs: []ViewField{{Name: "total"}}}}})
+			s.Methods = append(s.Methods, &Method{Name: "watch", Stream: "payload", GRPC: &GRPCMap{},
+				Payload: &Att{Type: &Type{IsObject: true, Object: []*Field{
+					{Name: "sensor", Att: tag(&Att{Type: &Type{Prim: "String"}, Val: &Validation{MinLen: ip(2), MaxLen: ip(8)}}, 1)},
+					{Name: "level", Att: tag(&Att{Type: &Type{Prim: "Int"}, Val: &Validation{Min: fp(0), Max: fp(9)}}, 2)}}}, Required: []string{"sensor"}},
+				Result: &Att{Type: &Type{Ref: "Report"}}})
+		}
 		if si == 0 && index%6 == 4 {
 			// the metadata table: every primitive kind and arrays of primitives travel as metadata
 			pl := &Att{Type: &Type{IsObject: true}}
